@@ -328,6 +328,21 @@ class CanBehaveLikeAVariable(SymbolicExpression[T], ABC):
     variable.
     """
 
+    @property
+    def _is_a_condition_(self) -> bool:
+        """
+        Whether this expression stands in condition position (its value is interpreted as a boolean), in contrast to
+        being used as a value, e.g. an operand of a comparison, an argument, or a selected variable.
+        """
+        parent = self._parent_
+        if isinstance(parent, LogicalOperator):
+            return True
+        if isinstance(parent, ForAll):
+            return parent.condition is self
+        if isinstance(parent, QueryObjectDescriptor):
+            return parent._child_ is self
+        return False
+
     def __getattr__(self, name: str) -> CanBehaveLikeAVariable[T]:
         # Prevent debugger/private attribute lookups from being interpreted as symbolic attributes
         if not in_symbolic_mode():
@@ -1070,9 +1085,14 @@ class Variable(CanBehaveLikeAVariable[T]):
         if self._predicate_type_ == PredicateType.SubClassOfPredicate:
             function_output = function_output()
 
-        # Compute truth considering inversion
-        result_truthy = bool(function_output)
-        self._is_false_ = result_truthy if self._invert_ else not result_truthy
+        if self._predicate_type_ and self._is_a_condition_:
+            # Compute truth considering inversion
+            result_truthy = bool(function_output)
+            self._is_false_ = result_truthy if self._invert_ else not result_truthy
+        else:
+            # used as a value (an operand of a comparison, an argument, an inferred instance): every value counts,
+            # a falsy one included
+            self._is_false_ = False
 
         if self._yield_when_false_ or not self._is_false_:
             hv = function_output if isinstance(function_output, HashedValue) else HashedValue(function_output)
@@ -1199,21 +1219,6 @@ class DomainMapping(CanBehaveLikeAVariable[T], ABC):
                 if self._yield_when_false_ or not self._is_false_:
                     values[self._id_] = v
                     yield values
-
-    @property
-    def _is_a_condition_(self) -> bool:
-        """
-        Whether this mapping stands in condition position (its value is interpreted as a boolean), in contrast to
-        being used as a value, e.g. an operand of a comparison, an argument, or a selected variable.
-        """
-        parent = self._parent_
-        if isinstance(parent, LogicalOperator):
-            return True
-        if isinstance(parent, ForAll):
-            return parent.condition is self
-        if isinstance(parent, QueryObjectDescriptor):
-            return parent._child_ is self
-        return False
 
     @abstractmethod
     def _apply_mapping_(self, value: HashedValue) -> Iterable[HashedValue]:
